@@ -1,4 +1,4 @@
-//! c18bare <rounds> <threads> <depth> <seed> [history_turns] [tail_len] [light]
+//! c18bare <rounds> <threads> <depth> <seed> [history_turns] [tail_len] [light] [force_repetition_root]
 //! exit 0 = every thread's results equalled the sequential oracle; 1 = mismatch.
 use c18bare::*;
 
@@ -19,9 +19,10 @@ fn main() {
     let mut bad = 0;
     let mut nodes = 0;
     for r in 0..rounds {
-        let root = if r % 3 == 2 { build_repetition_root(seed.wrapping_add(r)) } else { build_root(seed.wrapping_add(r), turns, r % 2 == 1) };
+        let force_rep = arg(8, 0) == 1;
+        let root = if r % 3 == 2 || force_rep { build_repetition_root(seed.wrapping_add(r)) } else { build_root(seed.wrapping_add(r), turns, r % 2 == 1) };
         let expected = sequential(&root, depth);
-        let rep = round(&root, depth, threads, r as u32, seed.wrapping_mul(31).wrapping_add(r), true, if r % 3 == 2 { 6 } else { 1 }, &expected);
+        let rep = round(&root, depth, threads, r as u32, seed.wrapping_mul(31).wrapping_add(r), true, if r % 3 == 2 || force_rep { 6 } else { 1 }, &expected);
         nodes += rep.nodes * rep.threads;
         if rep.mismatching_threads > 0 || rep.root_changed {
             bad += 1;
